@@ -151,6 +151,9 @@ def run_model(texts):
     return res
 
 
+PENDING_OK = False
+
+
 def compare(expect, vers, mobs):
     """first disagreement or None"""
     if len(expect) != len(mobs):
@@ -161,6 +164,10 @@ def compare(expect, vers, mobs):
             if int(mv) != want:
                 return (n, f"entries written for key {k}: implementation {want}, model {mv}")
             continue
+        if mv.endswith("*"):
+            if kind == "sload" and PENDING_OK:
+                continue                  # the model still has work queued for the key: not a quiescent point for it
+            mv = mv[:-1]
         if mv == "-":
             got = None
         else:
